@@ -12,6 +12,7 @@ from engine.selftest import subst
 from props import c09, c14, c15, c16, c19
 
 ID = "C13"
+USES_CPP = True   # adds the front-end assumption canaries (engine/frontend.py) to every run of this check
 
 MANIFEST = {
     "level_claimed": {
